@@ -24,6 +24,21 @@ def root_of(obj) -> Optional[int]:
         return None
 
 
+def top_src(obj):
+    """dependence source that stands for an object reachable from a parameter: the parameter's
+    top-level field it hangs under (PF) or the parameter itself (P); None for fresh / global objects"""
+    chain = []
+    o = obj
+    while o[0] in ("F", "E"):
+        chain.append(o)
+        o = o[1]
+    if o[0] != "P":
+        return None
+    if chain and chain[-1][0] == "F":
+        return ("PF", o[1], chain[-1][2])
+    return ("P", o[1])
+
+
 def obj_depth(obj) -> int:
     d = 0
     while obj[0] in ("F", "E"):
@@ -126,7 +141,7 @@ class Val:
         if depth < MAXDEPTH:
             if self.elem is not None:
                 k |= self.elem.all_kinds(depth + 1)
-            if self.items:
+            if self.items and not self.is_bound():
                 for i in self.items:
                     k |= i.all_kinds(depth + 1)
         return frozenset(k)
@@ -136,7 +151,7 @@ class Val:
         if depth < MAXDEPTH:
             if self.elem is not None:
                 k |= self.elem.all_fsrc(depth + 1)
-            if self.items:
+            if self.items and not self.is_bound():
                 for i in self.items:
                     k |= i.all_fsrc(depth + 1)
         return frozenset(k)
@@ -146,7 +161,7 @@ class Val:
         if depth < MAXDEPTH:
             if self.elem is not None:
                 k |= self.elem.all_dep(depth + 1)
-            if self.items:
+            if self.items and not self.is_bound():
                 for i in self.items:
                     k |= i.all_dep(depth + 1)
         return frozenset(k)
@@ -156,7 +171,7 @@ class Val:
         if depth < MAXDEPTH:
             if self.elem is not None:
                 k |= self.elem.all_mdep(depth + 1)
-            if self.items:
+            if self.items and not self.is_bound():
                 for i in self.items:
                     k |= i.all_mdep(depth + 1)
         return frozenset(k)
@@ -166,7 +181,7 @@ class Val:
         if depth < MAXDEPTH:
             if self.elem is not None:
                 k |= self.elem.all_pts(depth + 1)
-            if self.items:
+            if self.items and not self.is_bound():
                 for i in self.items:
                     k |= i.all_pts(depth + 1)
         return frozenset(k)
@@ -198,9 +213,15 @@ class Val:
             dmap=None if self.dmap is None else tuple((k, v.trunc(depth + 1)) for k, v in self.dmap),
         )
 
+    def is_bound(self) -> bool:
+        """a bound-method value: `items` holds the receiver, not elements"""
+        return any(t.startswith(("bfunc:", "umeth:")) for t in self.ty)
+
     def iter_join(self) -> Optional["Val"]:
         """joined value of the elements (elem / items / dict keys)"""
         out = self.elem
+        if self.is_bound():
+            return out
         if self.items:
             for i in self.items:
                 out = i if out is None else join(out, i)
@@ -225,7 +246,13 @@ def join(a: Optional[Val], b: Optional[Val]) -> Optional[Val]:
             const = None
     items = None
     elem = None
-    if a.items is not None and b.items is not None and len(a.items) == len(b.items):
+    if a.is_bound() or b.is_bound():
+        ra = a.items[0] if a.is_bound() and a.items else None
+        rb = b.items[0] if b.is_bound() and b.items else None
+        rj = join(ra, rb)
+        items = (rj,) if rj is not None else None
+        elem = join(a.iter_join(), b.iter_join())
+    elif a.items is not None and b.items is not None and len(a.items) == len(b.items):
         items = tuple(join(x, y) for x, y in zip(a.items, b.items))
         elem = join(a.elem, b.elem)
     else:
